@@ -342,6 +342,147 @@ func c02Jobs(thorough bool) []c02Job {
 	return []c02Job{{m1, 4, 0}, {m2, 4, 0}, {m3, 4, 0}, {m4, 4, 0}, {m5, 2, 0}, {m5, 3, 0}, {p1, 2, 2}, {p2, 1, 1}, {p2, 2, 0}, {p3, 1, 1}, {p3, 2, 0}, {p4, 2, 1}, {p4, 1, 2}, {m6, 3, 0}}
 }
 
+// c02SameName: "for every counter and up-down counter ... the sum of the measurements recorded" is
+// per instrument. Every ordered pair of different synchronous instrument kinds of one number type,
+// created with the same name, description and unit on ONE meter (the meter caches instruments),
+// each recording its own distinct powers of three over two collection cycles of a delta and a
+// cumulative reader: the stream of each sum kind (told apart by IsMonotonic and number type) must
+// hold exactly that instrument's measurements, and a monotonic sum never decreases. Sequential;
+// runs under the scheduler only because the package is instrumented.
+func c02SameName(r *enum.R) {
+	kinds := []string{"counter", "updown", "histogram", "gauge"}
+	r.Bound("same_name_kinds_per_number_type", kinds)
+	for _, num := range []string{"int64", "float64"} {
+		for _, ka := range kinds {
+			for _, kb := range kinds {
+				if ka == kb || !r.Want() {
+					continue
+				}
+				r.Eval()
+				cas := map[string]any{"number": num, "created_first": ka, "created_second": kb, "name": "jobs"}
+				x := sched.Run(nil, 8000, false, func(x *sched.Exec) {
+					ctx := context.Background()
+					delta := NewManualReader(WithTemporalitySelector(func(InstrumentKind) metricdata.Temporality { return metricdata.DeltaTemporality }))
+					cum := NewManualReader()
+					mp := NewMeterProvider(WithReader(delta), WithReader(cum))
+					meter := mp.Meter("m")
+					mk := func(kind string) func(v int64) {
+						switch num + "/" + kind {
+						case "int64/counter":
+							c, _ := meter.Int64Counter("jobs")
+							return func(v int64) { c.Add(ctx, v) }
+						case "int64/updown":
+							c, _ := meter.Int64UpDownCounter("jobs")
+							return func(v int64) { c.Add(ctx, -v) }
+						case "int64/histogram":
+							c, _ := meter.Int64Histogram("jobs")
+							return func(v int64) { c.Record(ctx, v) }
+						case "int64/gauge":
+							c, _ := meter.Int64Gauge("jobs")
+							return func(v int64) { c.Record(ctx, v) }
+						case "float64/counter":
+							c, _ := meter.Float64Counter("jobs")
+							return func(v int64) { c.Add(ctx, float64(v)) }
+						case "float64/updown":
+							c, _ := meter.Float64UpDownCounter("jobs")
+							return func(v int64) { c.Add(ctx, -float64(v)) }
+						case "float64/histogram":
+							c, _ := meter.Float64Histogram("jobs")
+							return func(v int64) { c.Record(ctx, float64(v)) }
+						}
+						c, _ := meter.Float64Gauge("jobs")
+						return func(v int64) { c.Record(ctx, float64(v)) }
+					}
+					a, b := mk(ka), mk(kb)
+					// want[kind] = running total of that instrument (up-down counters record negated values)
+					want := map[string]int64{}
+					rec := func(kind string, f func(int64), v int64) {
+						f(v)
+						if kind == "updown" {
+							v = -v
+						}
+						want[kind] += v
+					}
+					sums := func(rd *ManualReader) map[string]int64 {
+						var rm metricdata.ResourceMetrics
+						if err := rd.Collect(ctx, &rm); err != nil {
+							x.Fail("C02|same-name|collect-error", "Collect: %v", err)
+						}
+						got := map[string]int64{}
+						for _, sm := range rm.ScopeMetrics {
+							for _, m := range sm.Metrics {
+								k, v := "", int64(0)
+								switch d := m.Data.(type) {
+								case metricdata.Sum[int64]:
+									k = map[bool]string{true: "counter", false: "updown"}[d.IsMonotonic]
+									for _, dp := range d.DataPoints {
+										v += dp.Value
+									}
+								case metricdata.Sum[float64]:
+									k = map[bool]string{true: "counter", false: "updown"}[d.IsMonotonic]
+									for _, dp := range d.DataPoints {
+										v += int64(dp.Value)
+									}
+								default:
+									continue
+								}
+								if _, dup := got[k]; dup {
+									x.Fail("C02|same-name|stream-reported-twice", "two %s sum streams named %q in one collection", k, m.Name)
+								}
+								got[k] = v
+							}
+						}
+						return got
+					}
+					deltaTotal := map[string]int64{}
+					lastCum := map[string]int64{}
+					vals := []int64{1, 3, 9, 27, 81, 243}
+					for cycle := 0; cycle < 2; cycle++ {
+						rec(ka, a, vals[3*cycle])
+						rec(kb, b, vals[3*cycle+1])
+						rec(ka, a, vals[3*cycle+2])
+						for k, v := range sums(delta) {
+							deltaTotal[k] += v
+							if k == "counter" && v < 0 {
+								x.Fail("C02|same-name|monotonic-delta-negative", "delta collection %d reports %d for the monotonic sum", cycle, v)
+							}
+						}
+						for k, v := range sums(cum) {
+							if k == "counter" && v < lastCum[k] {
+								x.Fail("C02|same-name|cumulative-decreased", "the monotonic cumulative sum went from %d to %d", lastCum[k], v)
+							}
+							lastCum[k] = v
+						}
+						for _, k := range []string{"counter", "updown"} {
+							if k != ka && k != kb {
+								if _, ok := deltaTotal[k]; ok {
+									x.Fail("C02|same-name|phantom-stream", "a %s sum is reported, no such instrument was created", k)
+								}
+								continue
+							}
+							if deltaTotal[k] != want[k] {
+								x.Fail("C02|same-name|delta-sum-mismatch", "%s %q created next to a same-named %s: delta values add up to %d after cycle %d, it recorded %d", k, "jobs", map[bool]string{true: kb, false: ka}[k == ka], deltaTotal[k], cycle, want[k])
+							}
+							if lastCum[k] != want[k] {
+								x.Fail("C02|same-name|cumulative-total-mismatch", "%s %q created next to a same-named %s: cumulative value %d after cycle %d, it recorded %d", k, "jobs", map[bool]string{true: kb, false: ka}[k == ka], lastCum[k], cycle, want[k])
+							}
+						}
+					}
+					_ = mp.Shutdown(ctx)
+				})
+				if x.Status != "" {
+					r.FailHere("same-name|"+x.Status, cas, "%s\n%s", x.Status, x.Stack)
+				}
+				for _, f := range x.Violations {
+					r.FailHere(strings.TrimPrefix(f.Key, "C02|"), cas, "%s", f.Msg)
+				}
+				r.Outcome(fmt.Sprint(num, ka, kb, len(x.Violations)))
+				r.Sample(func() any { return cas })
+			}
+		}
+	}
+}
+
 func TestVerifC02(t *testing.T) {
 	thorough := enum.Start("C02", "probe").Thorough()
 	all := c02Jobs(thorough)
@@ -349,9 +490,15 @@ func TestVerifC02(t *testing.T) {
 	for _, j := range all {
 		names = append(names, j.name())
 	}
+	names = append(names, "same-name-kinds")
 	enum.Jobs(names, func(job string) {
 		r := enum.Start("C02", "sums")
 		defer r.Finish()
+		if job == "same-name-kinds" {
+			r.Section(job)
+			c02SameName(r)
+			return
+		}
 		for _, j := range all {
 			if j.name() != job {
 				continue
